@@ -11,6 +11,8 @@ T = "pycoin.satoshi.IntStreamer:IntStreamer."
 class int_to_script_bytes:
     props = ["C12", "C03"]
     sig = dict(class_=Const(None), v=Int())
+    returns = Bytes()
+    options = {'reveal': ['scriptnum_enc']}
 
     def ensures_enc(class_, v, result):
         return result == scriptnum_enc(v)
@@ -27,6 +29,8 @@ def _inv_enc(ba, v, old_v):
 class int_from_script_bytes:
     props = ["C12", "C03"]
     sig = dict(class_=Const(None), s=Bytes(), require_minimal=Bool())
+    returns = Int()
+    options = {'reveal': ['scriptnum_dec', 'is_minimal_num']}
 
     def _hints(s):
         n = len(s)
